@@ -35,7 +35,7 @@ func vDerive(parent *vDerived, id string) *vDerived {
 	if vNonNeg {
 		vrt.Assume(x >= 0) // text encoders: keeps the sign of every number out of the path count
 	}
-	switch vrt.Choice(id+".op", 11) {
+	switch vOps[vrt.Choice(id+".op", len(vOps))] {
 	case 0:
 		d.log = parent.log.With(d.add("k"+id, x))
 	case 1:
@@ -57,6 +57,17 @@ func vDerive(parent *vDerived, id string) *vDerived {
 		f := Namespace("ns" + id)
 		d.ns = append(d.ns, "ns"+id)
 		d.log = parent.log.With(f, d.add("k"+id, x))
+	case 11:
+		// a marshaler over mutable state: With encodes what the state is now, whatever it becomes later
+		cell := new(int64)
+		*cell = x
+		vMutCells = append(vMutCells, cell)
+		want := x
+		if !vEncodingCore {
+			want = x + 1 // a core that only stores fields hands the marshaler on; it is evaluated when the harness reads the record
+		}
+		d.ctx = append(d.ctx, vPathField{ns: append(append([]string(nil), d.ns...), "m"+id), key: "v", val: want})
+		d.log = parent.log.With(Object("m"+id, vMutObj{cell}))
 	case 10:
 		// an object whose marshaler opens a namespace of its own: it must not disturb the namespaces around it
 		d.ctx = append(d.ctx, vPathField{ns: append(append([]string(nil), d.ns...), "o"+id, "in"), key: "v", val: x})
@@ -85,6 +96,28 @@ func vJoin(names []string) string {
 	}
 	return s
 }
+
+// vMutObj marshals the current value of a cell the harness changes after the derivations.
+type vMutObj struct{ p *int64 }
+
+func (o vMutObj) MarshalLogObject(enc zapcore.ObjectEncoder) error {
+	enc.AddInt64("v", *o.p)
+	return nil
+}
+
+var vMutCells []*int64
+
+// vOps is the derivation menu in force (all 12 operations, or a sub-menu for the deeper programs).
+var vOps = []int{0, 1, 2, 3, 4, 5, 6, 7, 8, 9, 10, 11}
+
+var vAllOps = []int{0, 1, 2, 3, 4, 5, 6, 7, 8, 9, 10, 11}
+
+// vCoreOps: one representative per mechanism (plain With, lazy With with spare capacity, sugared lazy With,
+// naming, a trailing namespace, a namespace-opening object, mutable state).
+var vCoreOps = []int{0, 7, 8, 3, 9, 10, 11}
+
+// vEncodingCore: the core under test encodes context at With time (JSON / console IO cores, also below a sampler).
+var vEncodingCore bool
 
 // vNsObj opens a namespace inside its own object.
 type vNsObj struct{ v int64 }
@@ -196,14 +229,21 @@ func (vFixedClock) NewTicker(time.Duration) *time.Ticker { return nil }
 
 var vNonNeg bool
 
+func vContextProgramOps(n int, ops []int, kinds ...int) {
+	vOps = ops
+	vContextProgram(n, kinds...)
+	vOps = vAllOps
+}
+
 func vContextProgram(n int, kinds ...int) {
 	var coreKind int
 	if len(kinds) > 0 {
 		coreKind = kinds[vrt.Choice("corekind", len(kinds))]
 	} else {
-		coreKind = vrt.Choice("core", 9)
+		coreKind = vrt.Choice("core", 10)
 	}
-	vNonNeg = coreKind == 2 || coreKind == 3
+	vNonNeg = coreKind == 2 || coreKind == 3 || coreKind == 9
+	vEncodingCore = vNonNeg
 	rec := vNewCore("rec", zapcore.DebugLevel)
 	rec2 := vNewCore("rec2", zapcore.DebugLevel)
 	var obs *observer.ObservedLogs
@@ -233,12 +273,19 @@ func vContextProgram(n int, kinds ...int) {
 		core = c
 	case 8:
 		core = zapcore.NewLazyWith(rec, nil)
+	case 9: // a sampler (never dropping) over the JSON IO core: With below a wrapper still encodes at once
+		core = zapcore.NewSamplerWithOptions(zapcore.NewCore(zapcore.NewJSONEncoder(zapcore.EncoderConfig{MessageKey: "msg", NameKey: "logger"}), sink, zapcore.DebugLevel), time.Second, 1<<30, 0)
 	}
+	vMutCells = nil
 	root := &vDerived{log: New(core, WithClock(vFixedClock{}))}
 	loggers := []*vDerived{root}
 	for i := 1; i <= n; i++ {
 		parent := loggers[vrt.Choice(vName("parent", i), len(loggers))]
 		loggers = append(loggers, vDerive(parent, vName("s", i)))
+	}
+	// state behind With-ed marshalers changes after the derivations: eager With must not see it
+	for _, c := range vMutCells {
+		*c = *c + 1
 	}
 	// every logger logs once, forwards or backwards
 	order := make([]int, len(loggers))
@@ -276,7 +323,7 @@ func vContextProgram(n int, kinds ...int) {
 			e := all[pos]
 			vrt.Assert("context-exact-and-isolated", vSamePath(vFlatten(e.Context), want))
 			vrt.Assert("name-is-dot-joined-path", e.LoggerName == name)
-		case 2, 3:
+		case 2, 3, 9:
 			if len(sink.lines) != pos+1 {
 				vrt.Fail("one-line-per-call")
 				return
@@ -305,7 +352,7 @@ func vContextProgram(n int, kinds ...int) {
 			bad := false
 			vFromJSON(v, nil, map[string]bool{"msg": true, "logger": true}, &got, &bad)
 			vrt.Assert("context-exact-and-isolated", !bad && vSamePath(got, want))
-			if coreKind == 2 {
+			if coreKind == 2 || coreKind == 9 {
 				nm := v.Get("logger")
 				if name == "" {
 					vrt.Assert("name-is-dot-joined-path", nm == nil)
@@ -337,14 +384,17 @@ func (s *vLineSink) Write(p []byte) (int, error) {
 }
 func (s *vLineSink) Sync() error { return nil }
 
-//verif: prop=C07 bounds="derivation programs of 2 steps (each: parent chosen among earlier loggers; op in {With 1 field, With 3 fields, WithLazy 1 field, WithLazy 2 fields, Named(empty|name), WithOptions(Fields), Sugar.With.Desugar, Sugar.WithLazy.Desugar, Namespace+field, Namespace alone, an object whose marshaler opens its own namespace}), symbolic int64 values, 9 core kinds (recorder, observer, JSON, console, tee, sampler, hooked, increase-level, lazy); every logger logs once, forwards or backwards"
-func VC07Program2() { vContextProgram(2) }
+//verif: prop=C07 bounds="derivation programs of 2 steps (each: parent chosen among earlier loggers; op in {With 1 field, With 3 fields, WithLazy 1 field, WithLazy 2 fields, Named(empty|name), WithOptions(Fields), Sugar.With.Desugar, Sugar.WithLazy.Desugar, Namespace+field, Namespace alone, an object whose marshaler opens its own namespace, With of a marshaler over state that changes after the derivation}), symbolic int64 values, over the storing/wrapping cores (observer, tee, sampler, hooked, increase-level); every logger logs once, forwards or backwards"
+func VC07Program2() { vContextProgram(2, 1, 4, 5, 6, 7) }
 
-//verif: prop=C07 tier=thorough bounds="derivation programs of 3 steps, 9 core kinds"
-func VC07Program3() { vContextProgram(3) }
+//verif: prop=C07 bounds="derivation programs of 2 steps from the 7-operation core menu over the encoding cores (JSON, console, sampler over JSON), output decoded"
+func VC07Program2Text() { vContextProgramOps(2, vCoreOps, 2, 3, 9) }
+
+//verif: prop=C07 tier=thorough bounds="derivation programs of 3 steps from the 7-operation core menu (With, WithLazy 2 fields, Sugar.WithLazy, Named, Namespace alone, namespace-opening object, mutable-state marshaler) over all 10 core kinds"
+func VC07Program3() { vContextProgramOps(3, vCoreOps) }
 
 //verif: prop=C07 bounds="derivation programs of 3 steps (so that two siblings can be derived from a derived, still unused parent) over the recorder core and the lazy-with core"
 func VC07Program3Rec() { vContextProgram(3, 0, 8) }
 
-//verif: prop=C07 tier=thorough bounds="derivation programs of 4 steps over the recorder core"
-func VC07Program4Rec() { vContextProgram(4, 0) }
+//verif: prop=C07 tier=thorough bounds="derivation programs of 4 steps from the 7-operation core menu over the recorder core"
+func VC07Program4Rec() { vContextProgramOps(4, vCoreOps, 0) }
